@@ -16,6 +16,8 @@ type FnResult struct {
 	Notes      []string
 	Unsup      []string
 	Used       []string // contracts relied upon
+	AxiomsUsed []string // origins of the global axioms relevant to this function's goals
+	Intrinsics []string // dependency functions modelled by engine code
 	Script     *Script
 	Trusted    bool
 	CoverCond  *Term
@@ -128,6 +130,7 @@ func (c *FnCtx) autoAxioms() {
 			body = f.Implies(pre, f.And(st.R, body))
 			if len(vars) == 0 {
 				c.termAxioms = append(c.termAxioms, body)
+				c.noteAxiom(len(c.termAxioms)-1, k, ct)
 				continue
 			}
 			var guards []*Term
@@ -140,8 +143,21 @@ func (c *FnCtx) autoAxioms() {
 				}
 			}
 			c.termAxioms = append(c.termAxioms, f.Forall(vars, f.Implies(f.And(guards...), body)))
+			c.noteAxiom(len(c.termAxioms)-1, k, ct)
 		}
 		c.axiomsUsed = append(c.axiomsUsed, shortKey(k))
+	}
+}
+
+// noteAxiom remembers which lemma a global axiom comes from (assumed ones are reported in the evidence).
+func (c *FnCtx) noteAxiom(idx int, key string, ct *Contract) {
+	if c.axiomName == nil {
+		c.axiomName = map[int]string{}
+	}
+	if ct.Trusted != "" {
+		c.axiomName[idx] = "assumed axiom " + shortKey(key)
+	} else {
+		c.axiomName[idx] = "proved lemma used as a fact " + shortKey(key)
 	}
 }
 
@@ -327,6 +343,11 @@ func (e *Engine) VerifyFunction(key string) (res *FnResult) {
 	}
 	sort.Strings(res.Used)
 	res.Script = c.buildScript()
+	res.AxiomsUsed = res.Script.AxiomNames
+	for k := range c.intrinsics {
+		res.Intrinsics = append(res.Intrinsics, k)
+	}
+	sort.Strings(res.Intrinsics)
 	res.ctx, res.fn, res.args = c, fn, args
 	return
 }
